@@ -725,7 +725,8 @@ var polprogRows []Row
 func main() {
 	if len(os.Args) > 1 && os.Args[1] == "-dump" {
 		buildRows()
-		b, _ := json.MarshalIndent(rows, "", " ")
+		scen, all := builderFacts()
+		b, _ := json.MarshalIndent(map[string]any{"rows": rows, "scenarios": scen, "accesses": all}, "", " ")
 		os.Stdout.Write(append(b, '\n'))
 		return
 	}
@@ -775,6 +776,36 @@ func main() {
 		h.Nontrivial(op + "|" + r.Go)
 	}
 	h.Sample()
+	// the policy-program builder's view of cali_tc_state, from REAL programs
+	h.Case("builder")
+	scen, all := builderFacts()
+	for _, ver := range []string{"4", "6"} {
+		for _, a := range all[ver] {
+			co, cn, ok := cMember(ver, "cali_tc_state", a.Field)
+			if !ok || co > 8*a.Off || 8*a.Off+a.Bits > co+cn {
+				h.OracleFail("polprog-state-access-outside-field", fmt.Sprintf("IPv%s policy program: %d-bit access at state+%d is annotated state->%s by the builder but lies outside that member (C: bit offset %d, %d bits)", ver, a.Bits, a.Off, a.Field, co, cn), a)
+			}
+			f := a.Field
+			if f == "" {
+				f = "?"
+			}
+			h.Op(fmt.Sprintf("inside %s cali_tc_state %s %d %d", ver, f, a.Off*8, a.Bits), "ok")
+			h.Count("builder-access:v" + ver)
+		}
+	}
+	for _, sc := range scen {
+		exp, repeat, ok := expectedAccesses(sc.Ver, sc)
+		if !ok || !sameAccesses(sc.Acc, exp, repeat) {
+			h.OracleFail("polprog-state-access-wrong-word", fmt.Sprintf("IPv%s %s: the %s match must read %s of state->%s but the emitted program reads %s (offset:bits from the state pointer)", sc.Ver, sc.Spec, sc.Kind, showAcc(exp), sc.Field, showAcc(sc.Acc)), sc)
+		}
+		got := sc.Acc
+		if repeat && len(got) > 0 && sameAccesses(got, got[:1], true) {
+			got = got[:1]
+		}
+		h.Op(fmt.Sprintf("match %s %s %s %d", sc.Ver, sc.Kind, sc.Field, sc.Prefix), showAcc(got))
+		h.Count("builder-scenario:v" + sc.Ver + ":" + sc.Kind)
+		h.Nontrivial("scenario|" + sc.Ver + sc.Spec)
+	}
 	// randomised byte-level ops
 	n := h.N
 	for i := 0; i < n; i++ {
